@@ -211,9 +211,13 @@ class Circuit:
         """Wait until a running circuit is fully initialized."""
         await self._check_started()
         assert self._simtask is not None
-        await asyncio.wait(
-            [asyncio.create_task(self._init_done.wait()), self._simtask],
-            return_when=asyncio.FIRST_COMPLETED)
+        init_done_task = asyncio.create_task(self._init_done.wait())
+        try:
+            await asyncio.wait(
+                [init_done_task, self._simtask], return_when=asyncio.FIRST_COMPLETED)
+        finally:
+            # do not leave the helper task pending when the simulation task finishes first
+            init_done_task.cancel()
         if self._error is not None and not self._simtask.done():
             # failed right after the initialization (the first evaluation of the circuit);
             # the simulation task is doing its cleanup, let it finish
